@@ -1,7 +1,7 @@
 SPECIFICATION Spec
 CONSTANTS
   MaxZ = 6
-  MaxId = 7
+  MaxId = 6
   MaxRun = 3
 INVARIANT InvTrue
 CHECK_DEADLOCK FALSE
